@@ -220,6 +220,10 @@ func (a *adversary) injectCorrupted(in Inject, target *Node, pm proto.Message) {
 		return
 	}
 	raw := f.pool[in.Kind][f.r.intn(len(f.pool[in.Kind]))]
+	if n := len(f.pool[in.Kind]); f.r.p(0.5) {
+		// one of the newest three: a message the target may not have handled yet (lost, late, or the target is behind)
+		raw = f.pool[in.Kind][n-1-f.r.intn(min(n, 3))]
+	}
 	if proto.Unmarshal(raw, pm) != nil {
 		return
 	}
